@@ -185,6 +185,71 @@ def gen_cases(tier, rng):
     for i, c in enumerate(base):
         if c["kind"] == "rand" and i % 8 == 0 and "labmap" not in c:
             yield dict(c, kind="obj-rand", _lab="obj")
+    # SCHEDULING stream: a gadget in which rule 2 / rule 3 produces an arrow only AFTER rule 1 has reached its fixpoint, followed by
+    # a rule-1 propagation path of 3-6 edges that is shielded by a hub, so that only the late arrow starts it; few graphs, MANY
+    # node insertion orders each (random ones and explicit zig-zag orders of the path), plus every single background edge
+    def sched_dags():
+        out = []
+        for k in (3, 4, 5, 6):                         # rule 2 late: collider a->c<-b, hub c over the path, chord a->p0
+            a, b, c = 0, 1, 2
+            p = list(range(3, 4 + k))
+            D = [[a, c], [b, c], [a, p[0]]] + [[c, x] for x in p] + [[p[i], p[i + 1]] for i in range(k)]
+            out.append(("sched-r2-%d" % k, 4 + k, D, p))
+        a, b, c = 0, 1, 2                               # a second path hanging off the first one
+        p, q = [3, 4, 5, 6], [7, 8, 9]
+        D = [[a, c], [b, c], [a, p[0]]] + [[c, x] for x in p + q] + [[p[i], p[i + 1]] for i in range(3)] \
+            + [[p[1], q[0]], [q[0], q[1]], [q[1], q[2]]]
+        out.append(("sched-r2-fork", 10, D, p + q))
+        for k in (3, 4):                                # rule 3 late: two non-adjacent hubs h1, h2 over the path, x - h1, x - h2, x - p0
+            x, h1, h2 = 0, 1, 2
+            p = list(range(3, 4 + k))
+            D = [[x, h1], [x, h2], [x, p[0]]] + [[h, y] for h in (h1, h2) for y in p] + [[p[i], p[i + 1]] for i in range(k)]
+            out.append(("sched-r3-%d" % k, 4 + k, D, p))
+        return out
+
+    def zigzags(n, path):
+        rest = [v for v in range(n) if v not in path]
+        z1 = path[1::2] + rest + path[0::2]
+        z2 = path[0::2][::-1] + rest + path[1::2]
+        z3 = [path[1]] + rest + [path[0]] + path[2:]
+        ends, lo, hi = [], 0, len(path) - 1
+        while lo <= hi:
+            ends.append(path[lo])
+            if lo != hi:
+                ends.append(path[hi])
+            lo, hi = lo + 1, hi - 1
+        return [z1, z2, z3, ends + rest, rest + ends[::-1], list(range(n)), list(range(n))[::-1]]
+
+    for name, n, D, path in sched_dags():
+        d = gr.G(range(n), D=D)
+        pat = pattern_of(d)
+        variants = [(name, pat, 150 if tier == "quick" else 600)]
+        for e in pat["U"]:
+            bgp = gr.G(pat["V"], D=sorted(pat["D"] + [e]), U=[x for x in pat["U"] if x != e])
+            variants.append((name + "+bg", bgp, 12 if tier == "quick" else 60))
+        for vname, pg, norders in variants:
+            orders = zigzags(n, path) if vname == name else zigzags(n, path)[:3]
+            for r in range(norders):
+                o = list(range(n))
+                rng.shuffle(o)
+                orders.append(o)
+            for j, o in enumerate(orders):
+                c = {"kind": vname, "g": dict(pg, V=list(o)), "mode": 1}
+                if j % 3 == 2:
+                    c["labmap"] = rng.sample(range(1000), n)
+                yield c
+    # DENSE graphs WITH background orientations (7-10 nodes, density 0.7-0.9, 1-3 background edges taken from the DAG)
+    for i in range(900 if tier == "quick" else 4000):
+        n = rng.randint(7, 10)
+        d = gr.random_kinds_graph(rng, n, gr.DAG_KINDS, p_edge=rng.choice([0.7, 0.8, 0.9]))
+        p = pattern_of(d)
+        us = list(p["U"])
+        rng.shuffle(us)
+        bg = us[:min(len(us), rng.randint(1, 3))]
+        p = gr.G(p["V"], D=sorted(p["D"] + bg), U=sorted(e for e in p["U"] if e not in bg))
+        vs = list(p["V"])
+        rng.shuffle(vs)
+        yield {"kind": "dense-bg", "g": dict(p, V=vs), "mode": 0 if len(p["U"]) <= 9 else 1, "labmap": rng.sample(range(1000), n)}
     # UNIT level (flavour J): _meek_rule1.._meek_rule4 called directly, every PDAG(n) n<=4 (cyclic directed layers included) x
     # every ordered pair, and random 5-7 node PDAGs on their undirected edges; expected = rule k of the proved model
     for n in range(2, 5):
@@ -340,7 +405,8 @@ def nontrivial(case, model):
 
 def key(case):
     return (gr.canon(case["g"]), case["mode"] == 3, case.get("rep"), gr.canon(case["g0"]) if "g0" in case else None, case.get("marks"),
-            tuple(case["labmap"]) if "labmap" in case else None, case.get("_lab"))
+            tuple(case["labmap"]) if "labmap" in case else None, case.get("_lab"),
+            tuple(case["g"]["V"]) if case["kind"].startswith("sched") else None)
 
 
 def shrink(case):
